@@ -47,3 +47,186 @@ Example empty_matcher_terminates :
   multi_line_run cfg M (fun _ => Continue) [97; 10; 98; 10]%N
   = RunOk [EBegin; EMatched 0 (Some 1) [97; 10; 98; 10]%N; EFinish 4 None].
 Proof. vm_compute. reflexivity. Qed.
+
+(* Props/C13_MultiLine.v — property C13, the event-level statement (to be appended to Props/C13.v):
+   MultiLine::run delivers exactly the events of the declarative multi-line reference ml_ref
+   (Spec/MultiLineSpec.v).  Statements only; proofs in Proofs/MultiLineProofs.v (with
+   Proofs/MLGroup.v and Proofs/MLGeometry.v).
+
+   PROVED, at full strength: for every input, every configuration SearcherBuilder::build can
+   produce (passthru resets the context sizes) with binary detection off, every matcher obeying the
+   find_at contract, and a sink that always continues (stopping sinks: property C16's prefix law),
+       multi_line_run = ml_ref,
+   inverted or not, with any context sizes.
+
+   FINDING (repaired in crates/searcher/src/searcher/glue.rs MultiLine::sink, mirrored in
+   Model/Glue.v ml_sink; the pre-repair behaviour is pinned in Proofs/MLPinned.v):
+     printf 'a\nb\nc\n' | rg -U -B1 'a|\z'   printed line 3 as a context line of no match.
+   An empty match at the very end of an input that ends with the line terminator has the empty line
+   range [len, len); MultiLine::sink kept it as the pending range and the final flush of
+   MultiLine::run called sink_context for it (delivering the before-context lines) and only then
+   sink_matched, which refuses the empty range.  The repaired sink drops such a match.  ml_ref
+   needed no change: it already says that this match covers no line. *)
+From RG Require Import Base.Bytes Model.Lines Model.SearcherCore Model.Glue Spec.GrepSpec Spec.MultiLineSpec
+  Proofs.LinesProofs Proofs.FuelProofs Proofs.MLGroup Proofs.MLGeometry Proofs.MultiLineProofs Proofs.MLPinned.
+
+(* 4. the main theorem *)
+Theorem multi_line_eq_ref :
+  forall (cfg : config) (M : matcher),
+    c_binary cfg = BNone -> find_at_ok M ->
+    (c_passthru cfg = true -> c_after cfg = 0) ->
+    forall s : bytes,
+      multi_line_run cfg M (fun _ => Continue) s = RunOk (ml_ref cfg (m_find_at M) s).
+Proof. exact multi_line_eq_ref_proof. Qed.
+Print Assumptions multi_line_eq_ref.
+
+(* 5. the property text, non-inverted: there are blocks (i, j) of line indices such that
+      - the matched events are, in order, exactly one per non-empty block: the whole lines
+        i .. j-1 of the input as one slice, with the offset and the number of line i;
+      - line t lies in a block iff one of the successive leftmost non-overlapping matches over the
+        whole input overlaps it (MultiLineSpec.covers);
+      - blocks are disjoint, increasing and never adjacent (touching or overlapping line ranges were
+        merged): no line is reported twice, matched events are at least a line apart. *)
+Theorem multi_line_matched_blocks :
+  forall (cfg : config) (M : matcher),
+    c_binary cfg = BNone -> find_at_ok M -> c_invert cfg = false ->
+    (c_passthru cfg = true -> c_after cfg = 0) ->
+    forall s : bytes,
+      let ltb := lt_byte (c_lt cfg) in
+      let L := split_lines ltb s in
+      exists (blocks : list (nat * nat)) (evs : list event),
+        multi_line_run cfg M (fun _ => Continue) s = RunOk evs /\
+        filter is_em evs = map (bev cfg s) (filter nonemptyb blocks) /\
+        (forall t, t < length L ->
+           flagf blocks t =
+           existsb (covers (length s) (off ltb s t) (off ltb s (S t)) (lt_is_suffix (LTByte ltb) (nth t L [])))
+                   (ml_matches (m_find_at M) (S (length s)) s 0)) /\
+        sepb L 0 blocks /\ em_sorted 0 (filter is_em evs).
+Proof. intros cfg M Hb Hf Hi Hp s. exact (matched_blocks cfg M Hb Hf Hi Hp s). Qed.
+Print Assumptions multi_line_matched_blocks.
+
+(* 6. the property text, inverted: the matched events are, in order, exactly the lines overlapped
+      by none of the successive matches of the inverted search (inv_matches: the next match from
+      the start of the first undecided line, resuming after the last line of that match) — each
+      such line as its own event (lev: its offset, its number, its bytes), each exactly once *)
+Theorem multi_line_inverted_lines :
+  forall (cfg : config) (M : matcher),
+    c_binary cfg = BNone -> find_at_ok M -> c_invert cfg = true ->
+    (c_passthru cfg = true -> c_after cfg = 0) ->
+    forall s : bytes,
+      let ltb := lt_byte (c_lt cfg) in
+      let L := split_lines ltb s in
+      exists evs : list event,
+        multi_line_run cfg M (fun _ => Continue) s = RunOk evs /\
+        filter is_em evs =
+        map (lev cfg s)
+            (filter (fun t => negb (existsb (covers (length s) (off ltb s t) (off ltb s (S t))
+                                               (lt_is_suffix (LTByte ltb) (nth t L []))) (inv_matches cfg M s)))
+                    (seq 0 (length L))).
+Proof. intros cfg M Hb Hf Hi Hp s. exact (inverted_lines cfg M Hb Hf Hi Hp s). Qed.
+Print Assumptions multi_line_inverted_lines.
+
+(* 7. the dropped match is narrow: ml_dangling (some successive match has an empty line range) holds
+      only for an empty match at the very end of an input that ends with the terminator *)
+Theorem dangling_only_at_end :
+  forall (cfg : config) (M : matcher), find_at_ok M -> forall s : bytes,
+    ml_dangling cfg (m_find_at M) s = true ->
+    In (length s, length s) (ml_matches (m_find_at M) (S (length s)) s 0) /\
+    exists A, s = A ++ [lt_byte (c_lt cfg)].
+Proof. exact ml_dangling_shape. Qed.
+Print Assumptions dangling_only_at_end.
+
+(* ------------------------------------------------------------------ the finding, pinned *)
+Definition cfg_ex (inv : bool) (a b : nat) (pt : bool) : config :=
+  {| c_lt := LTByte 10; c_invert := inv; c_after := a; c_before := b; c_passthru := pt;
+     c_line_number := true; c_stop_on_nonmatch := false; c_binary := BNone; c_multi_line := true |}.
+
+(* a matcher given by a table position -> match, clamped to the find_at contract *)
+Definition tab_matcher (t : list (option (nat * nat))) : matcher :=
+  {| m_is_match := fun _ => true; m_find_candidate := fun _ => None; m_line_term := None;
+     m_nonmatching := fun _ => false;
+     m_find_at := fun s p =>
+       match nth p t None with
+       | Some (a, b) => if Nat.leb p a && Nat.leb a b && Nat.leb b (length s) then Some (a, b) else None
+       | None => None
+       end |}.
+
+Lemma tab_matcher_ok t : find_at_ok (tab_matcher t).
+Proof.
+  intros s p a b. cbn [m_find_at tab_matcher]. destruct (nth p t None) as [[a' b']|]; [|discriminate].
+  destruct (Nat.leb_spec p a') as [H1|H1]; destruct (Nat.leb_spec a' b') as [H2|H2];
+    destruct (Nat.leb_spec b' (length s)) as [H3|H3];
+    cbn [andb]; intro H; try discriminate. injection H as <- <-. lia.
+Qed.
+Print Assumptions tab_matcher_ok.
+
+(* 'a|\z' on "a\nb\nc\n": (0,1), then the empty match at 6 *)
+Definition t_az : list (option (nat * nat)) := [Some (0, 1); Some (6, 6)].
+Definition s_abc : bytes := [97; 10; 98; 10; 99; 10]%N.
+
+(* the PRE-REPAIR MultiLine::run (Proofs/MLPinned.v) did not meet the reference: a context line of
+   no match; the repaired run does *)
+Theorem multi_line_eq_ref_pinned_refuted :
+  exists (cfg : config) (M : matcher) (s : bytes),
+    c_binary cfg = BNone /\ find_at_ok M /\ (c_passthru cfg = true -> c_after cfg = 0) /\
+    ml_dangling cfg (m_find_at M) s = true /\
+    multi_line_run_pinned cfg M (fun _ => Continue) s
+      = RunOk [EBegin; EMatched 0 (Some 1) [97; 10]%N; EBreak; EContext CBefore 4 (Some 3) [99; 10]%N; EFinish 6 None] /\
+    ml_ref cfg (m_find_at M) s = [EBegin; EMatched 0 (Some 1) [97; 10]%N; EFinish 6 None] /\
+    multi_line_run cfg M (fun _ => Continue) s = RunOk (ml_ref cfg (m_find_at M) s).
+Proof.
+  exists (cfg_ex false 0 1 false), (tab_matcher t_az), s_abc.
+  split; [reflexivity|]. split; [apply tab_matcher_ok|]. split; [discriminate|].
+  split; [vm_compute; reflexivity|]. split; [vm_compute; reflexivity|]. split; vm_compute; reflexivity.
+Qed.
+Print Assumptions multi_line_eq_ref_pinned_refuted.
+
+(* the hypothesis "passthru resets the context sizes" is needed: with passthru AND after-context
+   (a configuration SearcherBuilder::build never produces) the run labels the lines after a match
+   as passthru context, the grep model as after-context *)
+Theorem multi_line_passthru_after_refuted :
+  exists (cfg : config) (M : matcher) (s : bytes),
+    c_binary cfg = BNone /\ find_at_ok M /\ c_passthru cfg = true /\ c_after cfg = 1 /\
+    multi_line_run cfg M (fun _ => Continue) s <> RunOk (ml_ref cfg (m_find_at M) s).
+Proof.
+  exists (cfg_ex false 1 0 true), (tab_matcher [Some (0, 0)]), [10; 97; 97]%N.
+  split; [reflexivity|]. split; [apply tab_matcher_ok|]. split; [reflexivity|]. split; [reflexivity|].
+  vm_compute. discriminate.
+Qed.
+Print Assumptions multi_line_passthru_after_refuted.
+
+(* ------------------------------------------------------------------ non-vacuity *)
+(* "ab\ncd\nef\ngh\nij": matches (1,4) spanning a terminator, (4,5) in the last line of the first
+   (overlap after locating), (6,7) in the next line (touching: merged), then the empty match at the
+   end of the unterminated last line; line 4 is after-context *)
+Definition s_ex : bytes := [97; 98; 10; 99; 100; 10; 101; 102; 10; 103; 104; 10; 105; 106]%N.
+Definition t_ex : list (option (nat * nat)) :=
+  [Some (1, 4); None; None; None; Some (4, 5); Some (6, 7); None; Some (14, 14)].
+
+Example ml_example_blocks :
+  multi_line_run (cfg_ex false 1 1 false) (tab_matcher t_ex) (fun _ => Continue) s_ex
+  = RunOk [EBegin; EMatched 0 (Some 1) [97; 98; 10; 99; 100; 10; 101; 102; 10]%N;
+           EContext CAfter 9 (Some 4) [103; 104; 10]%N; EMatched 12 (Some 5) [105; 106]%N; EFinish 14 None]
+  /\ ml_dangling (cfg_ex false 1 1 false) (m_find_at (tab_matcher t_ex)) s_ex = false
+  /\ ml_matches (m_find_at (tab_matcher t_ex)) (S (length s_ex)) s_ex 0 = [(1, 4); (4, 5); (6, 7); (14, 14)].
+Proof. vm_compute. repeat split. Qed.
+
+Example ml_example_blocks_is_ref :
+  multi_line_run (cfg_ex false 1 1 false) (tab_matcher t_ex) (fun _ => Continue) s_ex
+  = RunOk (ml_ref (cfg_ex false 1 1 false) (m_find_at (tab_matcher t_ex)) s_ex).
+Proof.
+  apply multi_line_eq_ref; [reflexivity|apply tab_matcher_ok|discriminate].
+Qed.
+
+(* inverted: the lines not overlapped by a match, one event per line, with before-context *)
+Example ml_example_inverted :
+  multi_line_run (cfg_ex true 0 1 false) (tab_matcher [Some (4, 7)]) (fun _ => Continue) s_ex
+  = RunOk [EBegin; EMatched 0 (Some 1) [97; 98; 10]%N; EBreak;
+           EContext CBefore 6 (Some 3) [101; 102; 10]%N;
+           EMatched 9 (Some 4) [103; 104; 10]%N; EMatched 12 (Some 5) [105; 106]%N; EFinish 14 None]
+  /\ multi_line_run (cfg_ex true 0 1 false) (tab_matcher [Some (4, 7)]) (fun _ => Continue) s_ex
+     = RunOk (ml_ref (cfg_ex true 0 1 false) (m_find_at (tab_matcher [Some (4, 7)])) s_ex).
+Proof.
+  split; [vm_compute; reflexivity|].
+  apply multi_line_eq_ref; [reflexivity|apply tab_matcher_ok|discriminate].
+Qed.
